@@ -6,8 +6,8 @@ from .c03 import pair_loop, supertrait_items, draw_ord_fields
 NICHE = ["bool", "char", "NZ", "RefU8", "OptBox", "Inner", "Zst", "u8", "L"]
 REPRS = [None, None, None, "u8", "i8", "u16", "i32", "u64", "isize", "i16", "u32", "i64", "usize", "i128", "u128", "C", "C, u8", "u8, align(4)", "align(8)", "align(2)", "align(2), u8", "align(4), i8"]
 INT_RANGE = {"u8": (0, 255), "i8": (-128, 127), "u16": (0, 65535), "i32": (-2**31, 2**31 - 1),
-             "u64": (0, 2**63), "isize": (-2**40, 2**40), "i16": (-2**15, 2**15 - 1), "u32": (0, 2**32 - 1), "i64": (-2**63, 2**63 - 1),
-             "usize": (0, 2**63), "i128": (-2**100, 2**100), "u128": (0, 2**100)}
+             "u64": (0, 2**64 - 1), "isize": (-2**40, 2**40), "i16": (-2**15, 2**15 - 1), "u32": (0, 2**32 - 1), "i64": (-2**63, 2**63 - 1),
+             "usize": (0, 2**64 - 1), "i128": (-2**100, 2**100), "u128": (0, 2**100)}
 
 
 def spell_disc(rng, d, ri):
